@@ -16,7 +16,7 @@ use std::collections::BTreeSet;
 const DENY: &[&str] = &[
     "exec", "spawn", "exit", "watchdog", "sleep", "wget", "http_client", "ftp_get", "ftp_get_in_memory", "ftp_list", "ftp_nlst", "ftp_put", "ftp_put_in_memory", "hostname", "read", "cd", "set_env",
     "unset_env", "test_directory", "test_file", "appendfile", "cp", "glob_cp", "mkdir", "mv", "rm", "rmdir", "chmod", "glob_chmod", "temp_file", "touch", "write_binary_file", "writefile", "zip", "unzip",
-    "glob_array", "gitignore_path_array", "ls", "cat", "read_binary_file", "readfile", "digest", "sha256sum", "sha512sum", "read_properties", "write_properties", "canonicalize", "which", "man",
+    "glob_array", "gitignore_path_array", "ls", "cat", "read_binary_file", "readfile", "digest", "sha256sum", "sha512sum", "read_properties", "canonicalize", "which", "man",
 ];
 
 /// what may remain of the sensitive families (canonical names)
